@@ -9,7 +9,7 @@
 import Rtp.Proofs.Ntp
 import Rtp.Props.C17
 namespace Rtp.Props.C18
-open Rtp Rtp.Model.Ntp Rtp.Model.Ext Rtp.Pred.C18 Rtp.Pred.C17 Rtp.Spec.Ext Rtp.Proofs.Ntp Rtp.Proofs.Ext
+open Rtp Rtp.Model.Ntp Rtp.Model.ExtCodecs Rtp.Pred.C18 Rtp.Pred.C17 Rtp.Spec.ExtLayouts Rtp.Proofs.Ntp Rtp.Proofs.ExtCodecs
 
 /-- every instant from 1970-01-01 up to the end of the NTP era:
     `NewAbsCaptureTimeExtension(t).CaptureTime()` is `t` or `t − 1 ns` -/
